@@ -1,6 +1,7 @@
 import GGV.Run.ISet
 import GGV.Run.Excerpt
 import GGV.Run.Config
+import GGV.Run.Grammar
 /-! `ggmodel`: one request per line `<id> <suite> <op> <args…>`, one reply per line `<id> <result>`. -/
 open GGV.Run
 
@@ -9,6 +10,7 @@ def dispatch (suite op : String) (args : List String) : String :=
   | "iset" => isetSuite op args
   | "excerpt" => excerptSuite op args
   | "cfg" => cfgSuite op args
+  | "gram" => gramSuite op args
   | _ => "bad-suite"
 
 partial def loop (hin : IO.FS.Stream) (hout : IO.FS.Stream) : IO Unit := do
